@@ -31,6 +31,12 @@ type CLIResult struct {
 // binary's sign command with the strategy's flags and the given stdin, and
 // reads the directory back into w (changed files get new ticks in mtime order).
 func RunCLI(w *simfs.World, strat db.UpdateStrategy, stdin string, extraArgs ...string) (CLIResult, error) {
+	return RunCLIArgs(w, append(Flags(strat), extraArgs...), stdin)
+}
+
+// RunCLIArgs is RunCLI with the sign command's flags spelled out by the caller
+// (so that defaults of unmentioned flags are exercised).
+func RunCLIArgs(w *simfs.World, flagArgs []string, stdin string) (CLIResult, error) {
 	dir, err := os.MkdirTemp("", "vcli")
 	if err != nil {
 		return CLIResult{}, err
@@ -53,8 +59,7 @@ func RunCLI(w *simfs.World, strat db.UpdateStrategy, stdin string, extraArgs ...
 		os.Chtimes(full, mt, mt)
 		before[p] = st{mt, f.Data}
 	}
-	args := append([]string{"sign"}, Flags(strat)...)
-	args = append(args, extraArgs...)
+	args := append([]string{"sign"}, flagArgs...)
 	args = append(args, root)
 	cmd := exec.Command(GopkiBin(), args...)
 	cmd.Stdin = bytes.NewBufferString(stdin)
